@@ -1,5 +1,6 @@
 import AmrK.TasteComplete
 import AmrK.TasteAll
+import AmrK.TasteWF
 import AmrK.Obligations.HeaderLiteral
 /-! # C03 — taste accepts every well-formed plotfile under every option combination
 
@@ -36,6 +37,51 @@ theorem default_options (cellH : Bytes) (nfields : Nat) (files : List (String ×
 theorem canonical_header_is_the_codes :
     Py.ofString Generated.utilsHeaderConst = Py.sepJoin (Py.prefixToks.map (·, 32)) ++ Py.lastConst :=
   Generated.utilsHeader_is_model_prefix
+
+/-- **C03 at full strength on the model: every well-formed plotfile is reported good** - a global header
+    that is a text of the header renderer (any number of distinct fields, dimensions, levels, boxes), for
+    every selected level a directory under the stated name with a rendered level header (followed by any
+    further lines) and binary files that are concatenations of canonical FABs of the announced sizes at
+    the recorded offsets - for every distribution of the boxes over files and every listing order, every
+    level limit within the header's levels, and every combination of `binary_headers` / `binary_shape` -/
+theorem well_formed_accepted (H : Header.HData) (n : Nat) (dirs : List (String × LevelDir)) (h : PltWF H n dirs)
+    (limit : Option Int) (hn1 : 1 ≤ n) (hn : n ≤ H.levels.length)
+    (hlim : (limit = none ∧ n = H.levels.length) ∨ limit = some ((n - 1 : Nat) : Int)) (cH cS : Bool) :
+    tastePlt (Header.render H) limit dirs cH cS = (true, "good") :=
+  tastePlt_complete H n dirs h limit hn1 hn hlim cH cS
+
+/-- **the hypothesis is checked on real bytes**: the driver evaluates `pltWFB` on the files of every
+    generated plotfile (header, level headers, binary files as written to disk) against their claimed
+    content; a plotfile that passes is reported good by the validator model -/
+theorem certificate_sound (H : Header.HData) (n : Nat) (lv : List (List BoxRow × List Bytes)) (header : Bytes)
+    (dirs : List (String × LevelDir)) (h : pltWFB H n lv header dirs = true)
+    (limit : Option Int) (hn1 : 1 ≤ n) (hn : n ≤ H.levels.length)
+    (hlim : (limit = none ∧ n = H.levels.length) ∨ limit = some ((n - 1 : Nat) : Int)) (cH cS : Bool) :
+    tastePlt header limit dirs cH cS = (true, "good") :=
+  tastePlt_of_wfB H n lv header dirs h limit hn1 hn hlim cH cS
+
+/-- the per-file order used by the validator is the file's own order: insertion by offset of any
+    permutation of entries with strictly increasing offsets gives back that list -/
+theorem offset_order_unique (l s : List Entry) (hs : s.Pairwise offLt) (hp : l.Perm s) : sortByOffset l = s :=
+  sortByOffset_perm_sorted l s hs hp
+
+/-- non-vacuity of `well_formed_accepted`: a one-level plotfile with two boxes listed against their
+    order in the single binary file passes the certificate -/
+example :
+    let H : Header.HData := ⟨ofString "HyperCLaw-V1.1", [ofString "a"], 3, ofString "0.5",
+      [ofString "0.0", ofString "0.0", ofString "0.0"], [ofString "2.0", ofString "1.0", ofString "1.0"], [], [[1, 0, 0]], [0],
+      [[ofString "1.0", ofString "1.0", ofString "1.0"]], ofString "0",
+      [⟨[[(ofString "0.0", ofString "1.0"), (ofString "0.0", ofString "1.0"), (ofString "0.0", ofString "1.0")],
+         [(ofString "1.0", ofString "2.0"), (ofString "0.0", ofString "1.0"), (ofString "0.0", ofString "1.0")]],
+        ofString "0.5", ofString "0", ofString "Level_0", ofString "Cell"⟩], [[32], [32]], []⟩
+    let e0 : Entry := ⟨[1, 0, 0], [1, 0, 0], "Cell_D_00000", 0⟩
+    let e1 : Entry := ⟨[0, 0, 0], [0, 0, 0], "Cell_D_00000", ((canonHeader [1, 0, 0] [1, 0, 0] 1).length + 8 : Nat)⟩
+    let rows : List BoxRow := [⟨[0, 0, 0], [0, 0, 0], ofString "Cell_D_00000", (canonHeader [1, 0, 0] [1, 0, 0] 1).length + 8⟩,
+                               ⟨[1, 0, 0], [1, 0, 0], ofString "Cell_D_00000", 0⟩]
+    pltWFB H 1 [(rows, [ofString "2,1", []])] (Header.render H)
+      [("Level_0", ⟨some (renderCellHExt 1 rows [ofString "2,1", []]),
+                    [("Cell_D_00000", fileOf 1 [(e0, List.replicate 8 7), (e1, List.replicate 8 9)])]⟩)] = true := by
+  decide +kernel
 
 /-- non-vacuity: a concrete file of two FABs (2x1x1 and 1x1x1 cells, one field) is accepted -/
 example :
